@@ -31,6 +31,45 @@ MOD = "pv.props.c01"
 ORDERS = {"given": None, "reversed": lambda k: tuple(-ord(c) for c in k), "sorted": lambda k: k}
 
 
+def _in_child(fn, timeout=300):
+    """run fn() in a forked child (a crashing compiled kernel must not take the worker down) -> ('ok', result) |
+    ('failed', reason)"""
+    import os
+    import pickle
+    import select
+    import signal
+    r, w = os.pipe()
+    pid = os.fork()
+    if pid == 0:
+        try:
+            os.close(r)
+            try:
+                payload = pickle.dumps(("ok", fn()))
+            except BaseException as e:  # noqa: BLE001
+                payload = pickle.dumps(("failed", f"{type(e).__name__}: {str(e)[:200]}"))
+            with os.fdopen(w, "wb") as f:
+                f.write(payload)
+        finally:
+            os._exit(0)
+    os.close(w)
+    chunks = []
+    with os.fdopen(r, "rb") as f:
+        ready, _, _ = select.select([f], [], [], timeout)
+        if not ready:
+            os.kill(pid, signal.SIGKILL)
+            os.waitpid(pid, 0)
+            return "failed", "timeout"
+        chunks.append(f.read())
+    _, status = os.waitpid(pid, 0)
+    data = b"".join(chunks)
+    if not data:
+        return "failed", f"child died (status {status})"
+    try:
+        return pickle.loads(data)
+    except Exception as e:  # noqa: BLE001
+        return "failed", f"unreadable result: {e}"
+
+
 def numeric_replay_against_numpy(G, names=None):
     """-> list of (output, detail) where the real kernel disagrees with NumPy; finite data first, then NaN/inf
     injected into the float inputs"""
@@ -168,6 +207,20 @@ def kernel_job(prog: str, order: str = "given", seed: int = 0) -> JobOut:
                 return True, {"numeric": detail, "real_kernel_vs_numpy": bad[0][1], "engine": how}
             return False, {"why": "interpreter-level mismatch not confirmed by executing the real kernel", "engine": how}
         ob._replay = replay
+    if order == "given":
+        # encoding validation (sampled data, NOT a solver verdict): the real kernel, compiled by loopy's C target and
+        # gcc, agrees with NumPy on the default data and on copies with NaN/inf injected.  It ties the kernel
+        # interpreter to what the kernel really computes and reaches what the term algebra abstracts away (integer
+        # widths, special values that only exist in data).
+        st, res = _in_child(lambda: numeric_replay_against_numpy(G))
+        if st == "ok":
+            bad, how = res
+            sides.append(Side(f"{pre}/real-kernel-run-agrees-with-numpy-on-sample-data", not bad,
+                              {"engine": how, "first": bad[0] if bad else None}))
+        else:
+            # (loopy's ctypes-based C executor is not robust for every kernel -- it can even crash the process; that
+            #  is the executor's problem, not the kernel's: recorded, not judged)
+            sides.append(Side(f"{pre}/real-kernel-run-agrees-with-numpy-on-sample-data", True, f"not run: {res}"))
     return JobOut(obs=obs, sides=sides, info={"program": prog, "order": order})
 
 
@@ -188,10 +241,16 @@ def jobs(tier: str, seed: int):
         "bounds": {"programs": f"{len(progs)} (committed corpus + {120 if th else 24} programs of the shape-aware seeded generator{' + 40 of the first generator' if th else ''}); <= 4 axes of length "
                                "<= 5, 1..9 outputs", "output orders": list(ORDERS),
                    "inputs / element indices": "all (uninterpreted inputs, symbolic index)"},
-        "outside": ["loopy's own lowering of the TranslationUnit to C/OpenCL (trusted dependency)",
-                    "integer wrap-around, float rounding (term algebra; touched only by numeric replay)",
-                    "calls to hand-written loopy kernels, CSR matmul in generated kernels (not yet modelled)",
+        "outside": ["loopy's own lowering of the TranslationUnit to C/OpenCL (trusted dependency; sampled by the "
+                    "encoding-validation side only)",
+                    "integer wrap-around, float rounding, NaN/inf that exist only in data (abstracted by the term algebra; "
+                    "reached only by the sampled runs of the real kernel: default data + NaN/inf injected, program "
+                    "mixed_int_widths with extreme integers)",
                     "programs outside the corpus / generator"],
+        "encoding_validation": "per program (given order) the real kernel is compiled by loopy's C target + gcc and run "
+                               "on the default data and on two copies with NaN/inf injected; it must agree with NumPy "
+                               "(sampling, not a solver verdict; falls back to the numeric kernel interpreter where "
+                               "loopy's C executor cannot run the kernel)",
         "stubs": ["LoopyTarget subclass selecting loopy's C target (no OpenCL)"],
     }
     return J, meta
